@@ -256,7 +256,8 @@ def parse(data):
                     if m:
                         cur = int(m.group(1))
             out.dims.append((name, length, cur))
-    if p.section("variables"):
+    t = p.peek()
+    if p.section("variables") or (t.kind == "punct" and t.text == ":"):     # global attributes may follow without variables
         while True:
             t = p.peek()
             if p.at_punct(":"):                                   # global attribute
